@@ -13,6 +13,7 @@ import (
 
 	"github.com/go-logr/logr"
 	corev1 "k8s.io/api/core/v1"
+	apierrors "k8s.io/apimachinery/pkg/api/errors"
 	metav1 "k8s.io/apimachinery/pkg/apis/meta/v1"
 	"k8s.io/apimachinery/pkg/apis/meta/v1/unstructured"
 	"k8s.io/apimachinery/pkg/runtime"
@@ -47,13 +48,19 @@ type SetSpec struct {
 
 type SetEnv struct {
 	At    int    `json:"at"` // right before the n-th write on an ObjectSet / ObjectSetPhase in this step
-	Op    string `json:"op"` // lifecycle | touch
+	Op    string `json:"op"` // lifecycle | touch | status (value Succeeded | Archived: see applySetEnv)
 	Set   string `json:"set"`
 	Value string `json:"value"`
 }
 
+// (S1B) third-party operations on a delegated phase's API object, Set = name of the phase object:
+//
+//	delPhase — delete request; Orphan: with orphan propagation (the API adds the "orphan" finalizer);
+//	           Value "force": all finalizers are stripped first (namespace / force cleanup);
+//	gcPhase  — the garbage collector's half of an orphan deletion: dependents lose their owner
+//	           reference to the phase object, then the "orphan" finalizer is released.
 type Step struct {
-	Op     string             `json:"op"` // reconcile | phase | env | lifecycle | delete | editPayload | restart | delSlice
+	Op     string             `json:"op"` // reconcile | phase | env | lifecycle | delete | editPayload | restart | delSlice | rescope (set = kind, value = namespaced | cluster | unknown)
 	Set    string             `json:"set"`
 	Value  string             `json:"value"`
 	Orphan bool               `json:"orphan"`
@@ -64,6 +71,36 @@ type Step struct {
 	// C10 (convergence stream) only:
 	Fault *Fault `json:"fault,omitempty"` // op=reconcile|phase: one API call of this pass fails
 	Drift bool   `json:"drift,omitempty"` // a disturbance: the undisturbed reference run skips this step
+	// sys stream: the At-th write on a managed object of this pass is answered with an API error
+	WFault *WFault `json:"wfault,omitempty"` // op=reconcile|phase
+}
+
+// WFault makes the At-th (0-based, counted like Step.Env's At) non-dry-run write on a managed
+// object of a pass fail WITHOUT effect with an API error of the given class: Conflict | Forbidden |
+// Invalid | BadRequest | Error (InternalError).  Any other class name injects nothing — in
+// particular NotFound and AlreadyExists, which the phase reconciler does not treat as an error of
+// the pass ("don't error, just observe": the object counts as missing and the phase goes on).  Third-party edits of the ObjectSet (Step.SetEnv) are not applied in such a step.
+type WFault struct {
+	At    int    `json:"at"`
+	Class string `json:"class"`
+}
+
+// wfaultError builds the API error of a fault class (nil = class not supported).
+func wfaultError(class string, k verifstore.Key) error {
+	gr := schema.GroupResource{Group: k.Group, Resource: strings.ToLower(k.Kind) + "s"}
+	switch class {
+	case "Conflict":
+		return apierrors.NewConflict(gr, k.Name, fmt.Errorf("injected"))
+	case "Forbidden":
+		return apierrors.NewForbidden(gr, k.Name, fmt.Errorf("injected"))
+	case "Invalid":
+		return apierrors.NewInvalid(schema.GroupKind{Group: k.Group, Kind: k.Kind}, k.Name, nil)
+	case "BadRequest":
+		return apierrors.NewBadRequest("injected")
+	case "Error":
+		return apierrors.NewInternalError(fmt.Errorf("injected"))
+	}
+	return nil
 }
 
 // Fault makes the Call-th API call (0-based; reads, dry runs and writes all count) of a pass
@@ -348,6 +385,8 @@ func (y *sys) phaseStr(u *unstructured.Unstructured) string {
 	for _, f := range u.GetFinalizers() {
 		if f == "package-operator.run/cached" {
 			fin += "c"
+		} else if f == "orphan" { // (S1B) orphan propagation of a phase object
+			fin += "o"
 		} else {
 			fin += "?"
 		}
@@ -382,7 +421,67 @@ func (y *sys) applySetEnv(e SetEnv) {
 			ann, _, _ := unstructured.NestedString(u.Object, "spec", "verifTouch")
 			_ = unstructured.SetNestedField(u.Object, ann+"x", "spec", "verifTouch")
 		})
+	case "status":
+		// The store gets AHEAD of what the running pass has read: the controller's own previous pass
+		// (whose write the pass's informer cache had not shown yet) recorded Succeeded, or completed
+		// archival after a lifecycle change.  Nothing happens if that is recorded already.
+		y.env.Store.Mutate(k, func(u *unstructured.Unstructured) {
+			st, _ := u.Object["status"].(map[string]interface{})
+			if st == nil {
+				st = map[string]interface{}{}
+			}
+			conds, _ := st["conditions"].([]interface{})
+			gen := u.GetGeneration()
+			switch e.Value {
+			case "Archived":
+				if condIsTrue(conds, "Archived") {
+					return
+				}
+				_ = unstructured.SetNestedField(u.Object, "Archived", "spec", "lifecycleState")
+				st["conditions"] = setCondU(removeCondU(conds, "Available"), "Archived", "True", "Archived", gen)
+				delete(st, "controllerOf")
+			default: // Succeeded
+				if condIsTrue(conds, "Succeeded") {
+					return
+				}
+				st["conditions"] = setCondU(conds, "Succeeded", "True", "RolloutSuccess", gen)
+			}
+			u.Object["status"] = st
+		})
 	}
+}
+
+func condIsTrue(conds []interface{}, typ string) bool {
+	for _, c := range conds {
+		if m, ok := c.(map[string]interface{}); ok && m["type"] == typ && m["status"] == "True" {
+			return true
+		}
+	}
+	return false
+}
+
+func removeCondU(conds []interface{}, typ string) []interface{} {
+	var out []interface{}
+	for _, c := range conds {
+		if m, ok := c.(map[string]interface{}); ok && m["type"] == typ {
+			continue
+		}
+		out = append(out, c)
+	}
+	return out
+}
+
+// setCondU is meta.SetStatusCondition on the unstructured form: update in place or append.
+func setCondU(conds []interface{}, typ, status, reason string, gen int64) []interface{} {
+	n := map[string]interface{}{"type": typ, "status": status, "reason": reason, "observedGeneration": gen,
+		"message": "", "lastTransitionTime": "2020-01-01T00:00:00Z"}
+	for i, c := range conds {
+		if m, ok := c.(map[string]interface{}); ok && m["type"] == typ {
+			conds[i] = n
+			return conds
+		}
+	}
+	return append(conds, n)
 }
 
 // newSys builds the store, the cache and the REAL controllers for a scenario.
@@ -453,7 +552,7 @@ func (y *sys) doStep(st Step) string {
 			} else if strings.HasSuffix(r.Key.Kind, "ObjectSet") {
 				// third-party edits of the ObjectSet are scheduled relative to writes on ObjectSets
 				for _, e := range st.SetEnv {
-					if e.At == sw {
+					if e.At == sw && st.WFault == nil {
 						y.applySetEnv(e)
 					}
 				}
@@ -489,6 +588,25 @@ func (y *sys) doStep(st Step) string {
 				return verifstore.Fault{Before: errInjected}
 			}
 		}
+		// --- write faults (sys stream): the At-th write on a managed object is refused by the API
+		var refused []*verifstore.Request
+		if st.WFault != nil {
+			fw := 0
+			y.env.Store.InjectFault = func(r *verifstore.Request) verifstore.Fault {
+				if r.DryRun || r.Key.Group != verifphase.Group {
+					return verifstore.Fault{}
+				}
+				fw++
+				if fw-1 != st.WFault.At {
+					return verifstore.Fault{}
+				}
+				if e := wfaultError(st.WFault.Class, r.Key); e != nil {
+					refused = append(refused, r)
+					return verifstore.Fault{Before: e}
+				}
+				return verifstore.Fault{}
+			}
+		}
 		var res ctrl.Result
 		var err error
 		req := ctrl.Request{NamespacedName: types.NamespacedName{Namespace: y.ns(), Name: st.Set}}
@@ -499,6 +617,10 @@ func (y *sys) doStep(st Step) string {
 		}
 		y.env.Store.BeforeWrite = nil
 		y.env.Store.CallFault = nil
+		y.env.Store.InjectFault = nil
+		for _, r := range refused { // the trace names the error class the API answered with
+			r.Err = st.WFault.Class
+		}
 		log := y.env.Store.Log[from:]
 		if hit {
 			// a restart follows a crash: the dynamic cache is in-memory only
@@ -567,8 +689,119 @@ func (y *sys) doStep(st Step) string {
 	case "delSlice": // a third party (garbage collector, user) deletes an ObjectSlice
 		y.env.Store.Remove(y.sliceKey(st.Set))
 		return "-"
+	case "delPhase": // (S1B) a third party deletes an ObjectSetPhase / ClusterObjectSetPhase object
+		y.deletePhaseObject(st)
+		return "-"
+	case "gcPhase": // (S1B) the garbage collector finishes an orphan deletion of a phase object
+		y.gcPhaseObject(st.Set)
+		return "-"
+	case "rescope":
+		// The API of a managed kind is removed / registered again with another scope while the
+		// controllers keep running (CRD deleted and re-created): its objects are gone, the REST
+		// mapper answers differently from now on.
+		if st.Set != "NsThing" && st.Set != "ClThing" {
+			return "BAD-STEP"
+		}
+		gk := schema.GroupKind{Group: verifphase.Group, Kind: st.Set}
+		y.env.Store.DropKind(gk)
+		switch st.Value {
+		case "namespaced":
+			y.env.Store.RegisterKind(gk, true)
+		case "cluster":
+			y.env.Store.RegisterKind(gk, false)
+		default:
+			y.env.Store.UnregisterKind(gk)
+		}
+		return "-"
 	}
 	return "BAD-STEP"
+}
+
+// ---- (S1B) third-party operations on phase objects
+
+func (y *sys) phaseKey(name string) verifstore.Key {
+	return verifstore.Key{Group: verifphase.PkoGroup, Kind: y.setKind() + "Phase", Namespace: y.ns(), Name: name}
+}
+
+func hasFinalizer(u *unstructured.Unstructured, fin string) bool {
+	for _, f := range u.GetFinalizers() {
+		if f == fin {
+			return true
+		}
+	}
+	return false
+}
+
+// deletePhaseObject is a delete request of a third party (kubectl, a cleanup job, the namespace
+// controller) on a phase object.  Orphan propagation makes the API server add the "orphan"
+// finalizer.  Value "force" strips every finalizer first, so that the object is gone at once
+// without the phase controller having a say; the garbage collector then finds dangling owner
+// references: it removes them and deletes the dependents that have no owner left.
+func (y *sys) deletePhaseObject(st Step) {
+	k := y.phaseKey(st.Set)
+	if st.Value == "force" {
+		ph := y.env.Store.Peek(k)
+		if ph == nil {
+			return
+		}
+		y.env.Store.Mutate(k, func(u *unstructured.Unstructured) { u.SetFinalizers(nil) })
+		y.env.Store.Remove(k) // (already gone if it was in deletion)
+		y.gcDependents(ph.GetUID(), true)
+		return
+	}
+	if st.Orphan {
+		y.env.Store.Mutate(k, func(u *unstructured.Unstructured) {
+			if !hasFinalizer(u, "orphan") {
+				u.SetFinalizers(append(u.GetFinalizers(), "orphan"))
+			}
+		})
+	}
+	y.env.Store.Remove(k)
+}
+
+// gcDependents: every managed object (in key order) referring to the owner `uid` loses that
+// owner reference; with deleteUnowned a dependent left without any owner is deleted.
+func (y *sys) gcDependents(uid types.UID, deleteUnowned bool) {
+	for _, u := range y.env.Store.Snapshot() {
+		if u.GroupVersionKind().Group != verifphase.Group {
+			continue
+		}
+		var keep []metav1.OwnerReference
+		for _, r := range u.GetOwnerReferences() {
+			if r.UID != uid {
+				keep = append(keep, r)
+			}
+		}
+		if len(keep) == len(u.GetOwnerReferences()) {
+			continue
+		}
+		ok := verifstore.Key{Group: verifphase.Group, Kind: u.GetKind(), Namespace: u.GetNamespace(), Name: u.GetName()}
+		y.env.Store.Mutate(ok, func(o *unstructured.Unstructured) { o.SetOwnerReferences(keep) })
+		if deleteUnowned && len(keep) == 0 {
+			y.env.Store.Remove(ok)
+		}
+	}
+}
+
+// gcPhaseObject plays the garbage collector for a phase object in orphan deletion: every
+// dependent loses its owner reference to the phase object, then the "orphan" finalizer is
+// released (the object disappears with its last finalizer).
+func (y *sys) gcPhaseObject(name string) {
+	k := y.phaseKey(name)
+	ph := y.env.Store.Peek(k)
+	if ph == nil || ph.GetDeletionTimestamp() == nil || !hasFinalizer(ph, "orphan") {
+		return
+	}
+	y.gcDependents(ph.GetUID(), false)
+	y.env.Store.Mutate(k, func(u *unstructured.Unstructured) {
+		var keep []string
+		for _, f := range u.GetFinalizers() {
+			if f != "orphan" {
+				keep = append(keep, f)
+			}
+		}
+		u.SetFinalizers(keep)
+	})
 }
 
 // finalStrs prints the ObjectSets / phase objects and the managed objects of the store.
